@@ -78,7 +78,7 @@ def main(argv=None):
             if r.error:
                 errors.append((q, r.error))
                 run.functions[q]["error"] = r.error
-            obls = [o for o in r.obligations if (o.prop or prop) == prop or o.kind in ("cover", "canary", "pre", "safety", "inv")]
+            obls = [o for o in r.obligations if o.prop in ("", prop, "DBG") or o.kind in ("cover", "canary")]
             run.add_obligations(obls)
         for fn in entry.get("extra", []):
             run.add_obligations(fn(e, run, args.tier))
